@@ -23,7 +23,7 @@
 EXTENDS Integers, Sequences, FiniteSets, TLC, Json
 
 CONSTANTS MaxLen,    \* maximal number of (free) tokens
-          Entry,     \* "stylesheet" | "rules" | "decls" | "onedecl"
+          Entry,     \* "stylesheet" | "rules" | "decls" | "onedecl" | "blocks"
           Family     \* "full": all tokens | "imp": `ident :` followed by tokens of the !important machine
 
 Tok == {"ws", "comment", "ident", "imp", ":", ";", "!", "at", "{}", "()", "num", "cdo", "cdc"}
@@ -85,7 +85,7 @@ DropCDx == /\ phase = "run" /\ Entry = "stylesheet" /\ At(i) \in {"cdo", "cdc"}
            /\ i' = i + 1 /\ UNCHANGED <<toks, res, phase>>
 
 \* a stray ";" in a declaration list is dropped
-DropSemicolon == /\ phase = "run" /\ Entry = "decls" /\ At(i) = ";"
+DropSemicolon == /\ phase = "run" /\ Entry \in {"decls", "blocks"} /\ At(i) = ";"
                  /\ i' = i + 1 /\ UNCHANGED <<toks, res, phase>>
 
 \* 5.4.2 consume an at-rule: prelude up to ";" (consumed), a {} block (consumed) or EOF
@@ -114,11 +114,25 @@ ParseOneDeclaration ==
      IF p > Len(toks) THEN Emit1([k |-> "error"], Len(toks) + 1)
      ELSE Emit1(DeclItem(SubSeq(toks, p, Len(toks))), Len(toks) + 1)
 
+\* "consume a block's contents" (CSS nesting): an item that is not white space, ";" or an at-rule is a
+\* declaration if it looks like one (ident, optional white space, colon) and otherwise a nested qualified
+\* rule with ";" as stop token. It ends at the first top-level ";" or {}-block.
+\* When a declaration-looking item meets a {}-block before its ";", Level 3, the current draft and css/parser
+\* split the input differently: such scenarios are flagged `lax` and not compared.
+DeclLooking(p) == IsIdent(At(p)) /\ At(SkipWs(p + 1)) = ":"
+ConsumeBlockItem ==
+  /\ phase = "run" /\ Entry = "blocks" /\ ~IsWs(At(i)) /\ At(i) \notin {"at", ";", "eof"}
+  /\ IF At(i) = "{}" THEN Emit1([k |-> "qual", np |-> 0], i + 1)
+     ELSE LET e == Find(i + 1, {";", "{}"}) IN
+          IF At(e) = "{}" THEN Emit1([k |-> "qual", np |-> e - i, lax |-> DeclLooking(i)], e + 1)
+          ELSE IF DeclLooking(i) THEN Emit1(DeclItem(SubSeq(toks, i, e - 1)), IF e > Len(toks) THEN e ELSE e + 1)
+          ELSE Emit1([k |-> "error"], IF e > Len(toks) THEN e ELSE e + 1)
+
 Finish == /\ phase = "run" /\ i > Len(toks) /\ (Entry = "onedecl" => res # <<>>)
           /\ phase' = "done" /\ UNCHANGED <<toks, i, res>>
 
 Next == TopWs \/ DropCDx \/ DropSemicolon \/ ConsumeAtRule \/ ConsumeQualifiedRule
-        \/ ConsumeDeclaration \/ ParseOneDeclaration \/ Finish
+        \/ ConsumeDeclaration \/ ParseOneDeclaration \/ ConsumeBlockItem \/ Finish
 Spec == Init /\ [][Next]_vars
 
 ---------------------------------------------------------------------------
@@ -126,14 +140,15 @@ Spec == Init /\ [][Next]_vars
 Progress == [][phase = "run" /\ phase' = "run" => (i' > i \/ (toks = <<>> /\ Len(res') > Len(res)))]_vars
 \* exactly one construct starts at every cursor position: the consumers never overlap
 Deterministic == (phase = "run" /\ i <= Len(toks) /\ ~(Entry = "onedecl" /\ res # <<>>)) =>
-   Cardinality({a \in {"ws", "cdx", "semi", "at", "qual", "decl", "one"} :
+   Cardinality({a \in {"ws", "cdx", "semi", "at", "qual", "decl", "one", "item"} :
       CASE a = "ws"   -> ENABLED TopWs
         [] a = "cdx"  -> ENABLED DropCDx
         [] a = "semi" -> ENABLED DropSemicolon
         [] a = "at"   -> ENABLED ConsumeAtRule
         [] a = "qual" -> ENABLED ConsumeQualifiedRule
         [] a = "decl" -> ENABLED ConsumeDeclaration
-        [] a = "one"  -> ENABLED ParseOneDeclaration}) = 1
+        [] a = "one"  -> ENABLED ParseOneDeclaration
+        [] a = "item" -> ENABLED ConsumeBlockItem}) = 1
 \* a valid construct is never swallowed by a preceding invalid one: the number of declarations found
 \* is at least the number of ";"-separated chunks that are well-formed on their own
 Chunks == LET semis == {p \in 1..Len(toks) : toks[p] = ";"} IN Cardinality(semis) + 1
